@@ -247,6 +247,8 @@ def call_builtin(ex, name, args, kwargs, node):
             return vector_map(ex, f, args[1:], node)
         return [ex.call(f, list(t), {}, node) for t in zip(*seqs)]
     if name == "zip":
+        if args and all(isinstance(a, Seq) for a in args) and any(not a.concrete for a in args):
+            return V.ZipV(args)
         seqs = [ex.concrete_items(a, node) for a in args]
         return [Seq("tuple", list(t)) for t in zip(*seqs)]
     if name == "enumerate":
